@@ -14,10 +14,20 @@ import os
 import numpy as np
 
 from .. import universe as U
-from ..core import guarded, MachineryError
+from ..core import guarded as _core_guarded, MachineryError
 from ..numeric import fx_req
 from ..project import exact_ints, find_scale, ids
 from .c02 import ORIENT_REV, SECOND, box_delaunay
+
+
+def guarded(fn, seconds):
+    """core.guarded with a generous alarm; an expired alarm says something about the MACHINE (load, a slow box), not
+    about the library -- none of the calls driven here can loop -- so it is a machinery failure (exit 2), never an
+    observation a clause could turn into a VIOLATION."""
+    res, err = _core_guarded(fn, 10 * seconds)
+    if err == 'Timeout':
+        raise MachineryError('per-call alarm expired (%d s): machine too slow or overloaded' % (10 * seconds))
+    return res, err
 
 RULE = ('scenario = one mesh with one mapping object (affine / isoparametric / second-order curved) observed at dyadic '
         'reference points, or one sequence of calls on one mapping object for the argument-shape laws; non-trivial = '
@@ -129,13 +139,12 @@ def geom_event(v):
         detI = exact_ints(det[:, 0] * sc ** d) if mapname == 'affine' else None
         C = []
         for k in range(nt):
-            fv = exact_ints(FV[:, k, :].T * sc)
             C.append({'F': fxa(F[:, k, :].T), 'DF': fxa(np.moveaxis(DF[:, :, k, :], 2, 0)),
                       'iDF': fxa(np.moveaxis(iDF[:, :, k, :], 2, 0)), 'det': fxa(det[k]),
                       'Y': fxa(Y[:, k, :].T), 'Z': fxa(Z[:, k, :].T),
                       'Fp': [[fx_list(Fp[j][:, k, q]) for j in range(d)] for q in range(X.shape[1])],
                       'Fm': [[fx_list(Fm[j][:, k, q]) for j in range(d)] for q in range(X.shape[1])],
-                      'FV': fv if fv is not None else [],
+                      'FV': fxa(FV[:, k, :].T),
                       'detI': [detI[k]] if detI is not None else []})
         ev['C'] = C
         if brd is not None:
@@ -157,12 +166,11 @@ def geom_event(v):
             nrm = mp.normals(Yf, owner, allf, mesh.t2f)
             Fa = []
             for f in range(nf):
-                gv = exact_ints(GV[:, f, :].T * sc)
                 Fa.append({'G': fxa(G[:, f, :].T), 'dG': fxa(dG[f]), 'n': fxa(nrm[:, f, :].T),
                            'Yf': fxa(Yf[:, f, :].T), 'ZG': fxa(ZG[:, f, :].T),
                            'Gp': [[fx_list(Gp[j][:, f, q]) for j in range(df)] for q in range(Xf.shape[1])],
                            'Gm': [[fx_list(Gm[j][:, f, q]) for j in range(df)] for q in range(Xf.shape[1])],
-                           'GV': gv if gv is not None else []})
+                           'GV': fxa(GV[:, f, :].T)})
             ev['Fa'] = Fa
     _, err = guarded(call, 60)
     if err:
@@ -370,7 +378,10 @@ def refdom_event(v):
 def execute(rec):
     v = rec['v']
     if rec['driver'] == 'refdom':
-        return [refdom_event(v)]
+        ev = refdom_event(v)
+        # the tables are the library's internal representation: if they are not there in this form (moved, renamed,
+        # normalised to unit length) there is nothing to observe -- the normals themselves are judged on the meshes
+        return [] if ev['err'] else [ev]
     if rec['driver'] == 'geom':
         evs = [geom_event(v)]
         if v['kind'] not in ('wedge',) and v.get('div', 1):
